@@ -130,6 +130,11 @@ class SchemaGen:
             if c == 4:
                 s["minLength"] = s["maxLength"] = r.randrange(1, 5)   # fixed length (counted in scalar values)
                 return s
+            if self.chance(0.12):
+                # bounds at the end of their range: a constraint that constrains nothing, or admits only ""
+                s.update(self.pick([{"minLength": 0}, {"maxLength": 0}, {"minLength": 0, "maxLength": 3}, {"pattern": ""},
+                                    {"minLength": 0, "pattern": "^[a-z]*$"}]))
+                return s
             if c in (0, 3):
                 s["minLength"] = r.randrange(0, 4)
             if c in (1, 3):
